@@ -17,6 +17,23 @@ chk("C13", "model_checking",
     "exhaustive bounded enumeration of block histories on the real app (explicit-state, replay states)",
     "DESIGN.md §5 C13", "seqx-replay")
 
+LEDGER_NOTE = "Trusts cosmos-sdk baseapp / bank / auth and go-ethereum's interpreter; bounds (alphabet, block length, history depth) as stated in the evidence file. Mint inflation is forced to 0 in the worlds."
+
+chk("C04", "model_checking",
+    "Explicit-state exploration of the real application at ABCI level: every single-tx block of the product kind × fee shape × gas limit × block-gas world, every two-tx block over (kind × fee/gas combo)², and two-block histories are executed on fresh apps; after every block the supply of every denomination, the sum of all bank balances, the fee collector and the EVM module account are compared with an independent ledger computed from the receipts.",
+    LEDGER_NOTE, "exhaustive bounded enumeration of block histories on the real app, ledger oracle", "DESIGN.md §5 C04", "seqx-replay")
+chk("C05", "model_checking",
+    "Same exhaustive history space as C04 with the charge oracle: per wallet and block, the balance change must equal −Σ(gas × effective price + value moved) with gas = receipt gas used for committed executions and the gas limit for failures after admission; intrinsic ≤ gas used ≤ limit; consensus gas used = receipt gas used; cumulative gas is the running sum; histories containing a non-admitted tx are re-run without it and must reach the same AppHash.",
+    LEDGER_NOTE, "exhaustive bounded enumeration of block histories on the real app, ledger oracle + twin runs", "DESIGN.md §5 C05", "seqx-replay")
+chk("C06", "model_checking",
+    "Exhaustive enumeration of adversarial encodings (13 Ethereum variants × 2 tx types × 5 outcome kinds, 5 Cosmos variants) at every position of short blocks, and of byte-exact replays of every accepted tx kind at 7 later positions across up to 3 blocks, on the real app. Authorisation is known by construction; every history with a rejected item is executed twice (with and without the rejected items) and all stores except the fee market's are compared; account sequences must advance exactly once per admitted tx.",
+    "Trusts cosmos-sdk baseapp and secp256k1; a rejected tx still counts towards block gas (cosmos-sdk accounting) and therefore moves the next base fee - this is not counted as a state change by the sender (DESIGN.md §5 C06).",
+    "exhaustive bounded enumeration of adversarial histories on the real app + differential twin runs", "DESIGN.md §5 C06", "seqx-replay")
+chk("C09", "model_checking",
+    "The real CalculateBaseFee is evaluated on the full product grid of base fees (0..2^255), MaxGas settings (−1,0,1,…,2^63−1), gas-used boundary values and min gas prices and compared with an independent big-integer transcription of the property's formula; all 1-/2-block fill-level histories in five MaxGas worlds are executed through FinalizeBlock and the stored base fee compared with the formula; an admission grid (price offsets around the floor × legacy/dynamic × heights) checks that a tx executes iff its effective price ≥ max(base fee, ⌊min gas price⌋).",
+    "Trusts baseapp's block gas meter; for a gas target of 0 only absence of failure is required.",
+    "exhaustive grid over the real keeper function + exhaustive bounded block histories", "DESIGN.md §5 C09", "seqx-replay")
+
 NOT_YET = "check not built yet in this round (planned, see DESIGN.md §9)"
 
 def main():
